@@ -9,11 +9,11 @@ TECH = "deterministic simulation with fault injection: "
 checks = {
  "C02": dict(level="exploration", design="§4 C02",
    technique=TECH + "page walks (next to past the end, previous to before the start) with a restart between pages, partition oracle over the recorded walk, unsized twin for the full page",
-   text="Seeded search over sink contents (row lengths around the page capacity, empty and trailing-empty rows, MSINK menus), sizes, separators and labels; a client walks all pages with a fresh engine per page request; the pages must partition the rows in order, carry the static part, offer next/previous exactly where they apply, every offered entry must render, and requests past either end must not be answered with a page of the node. Sampling. One defect pinned by the existing tests is a known finding.",
+   text="Seeded search over sink contents (row lengths around the page capacity, empty and trailing-empty rows, MSINK menus), sizes, separators and labels; a client walks all pages with a fresh engine per page request; the pages must partition the rows in order, carry the static part, offer next/previous exactly where they apply, every offered entry must render, and requests past either end must not be answered with a page of the node. One run in 6 starts its walk from the page that comes again with an invalid-input line on top (catch node that only moves back). Sampling. Two defects are known findings: a row that fits on no later page (pinned by the existing tests), and walks that start from a page carrying an error line.",
    note="Trusted: output parser over sentinel templates; trailing empty rows are not compared (no glyphs)."),
  "C15": dict(level="fault_enumeration", design="§4 C15",
    technique=TECH + "storage-corruption fault on bytecode records: every truncation, every byte replaced by 8 values, appended garbage; two readers (engine/VM, disassembler) against an independent decoder",
-   text="For sampled valid programs using all twelve opcodes the stored record is damaged in every way of the catalogue and handed to the VM (through the resource seam, two requests) and to the disassembler; an independent decoder classifies each damaged record; no reader may panic in decoding, the disassembler must fail iff the record is malformed, the VM must fail on a truncated instruction and never report success past a malformed one. Exhaustive per program over the catalogue; programs sampled. Claimed only as a storage fault (not arbitrary byte strings, not coverage-guided fuzzing).",
+   text="For sampled valid programs using all twelve opcodes the stored record is damaged in every way of the catalogue and handed to the VM (through the resource seam, two requests) and to the disassembler; an independent decoder classifies each damaged record; no reader may panic in decoding, the disassembler must fail iff the record is malformed, the VM must fail on a truncated instruction, never report success past a malformed one (also not by showing the decoding error on a catch page after an earlier external failure) and not go on from behind it on the next request. Exhaustive per program over the catalogue; programs sampled. Claimed only as a storage fault (not arbitrary byte strings, not coverage-guided fuzzing).",
    note="Trusted: refcodec decoder written from the documentation; panics outside the decoding functions (e.g. a decoded flag index out of range) are execution semantics and only counted."),
  "C19": dict(level="exploration", design="§4 C19",
    technique=TECH + "2..16 session goroutines under a seeded baton scheduler (one runs at a time, next task drawn from the tape at every seam event), hand-off hidden from the race detector; solo-vs-concurrent twin, canary in shared tables, -race child processes",
@@ -25,7 +25,7 @@ checks = {
    note="Trusted: refvm (model of the VM over the IR), the independent bytecode encoder, one-GetCode-per-move observation. The model abstains after execution errors."),
  "C04": dict(level="exploration", design="§4 C04",
    technique=TECH + "seeded move histories with single-candidate routing, restarts on all backends, refinement of position against refvm's move table",
-   text="Seeded search over node graphs with every target kind from MOVE, INCMP and CATCH and histories of descents, ascents, rewinds, repeats, lateral and failing moves, with restarts on memory, filesystem and Postgres-fake; after every request (path, page index) read from the live/persisted state must equal the documented table, and a failing move must report failure. Sampling.",
+   text="Seeded search over node graphs with every target kind from MOVE, INCMP and CATCH and histories of descents, ascents, rewinds, repeats, lateral and failing moves, with restarts on memory, filesystem and Postgres-fake; after every request (path, page index) read from the live/persisted state must equal the documented table, and a failing move must report failure. Sub-batches: stacks of up to 128 entries, a restart after a failed move, up to 40000 lateral moves in a row. Sampling.",
    note="Trusted: refvm move table; requests whose number of moves differs from the model are left to C03/C06 (counted). '^' on the entry node with a non-zero index is not compared."),
  "C05": dict(level="exploration", design="§4 C05",
    technique=TECH + "seeded LOAD/RELOAD/MAP programs x up/down histories with failing, empty and oversized external results and restarts, refinement of call log, symbol tables and shown values against refvm",
@@ -36,24 +36,24 @@ checks = {
    text="Seeded search over CATCH/CROAK programs whose external functions request arbitrary flag changes; (A) moves and client flags must equal the model's, (B) a twin with indices 0..5 stripped from every result must behave identically down to the stored flag bytes, (C) once TERMINATE is set every request must report stop, output nothing, fetch no code, call nothing and leave the session unchanged. Sampling.",
    note="Trusted: refvm; twin comparison cannot mis-model the code. Built-in bookkeeping flags are compared only between twins."),
  "C18": dict(level="exploration", design="§4 C18",
-   technique=TECH + "language switches injected through external results (valid, invalid, repeated) with partial translation tables and restarts, over two resource stacks; refinement against refvm's language per lookup",
+   technique=TECH + "language switches injected through external results (valid, invalid, repeated) with partial translation tables and restarts, over three resource stacks (harness resource, library DbResource over a recording store, library gettext resource over generated .po files); refinement against refvm's language per lookup",
    text="Seeded search over programs that switch language at arbitrary points; the language on the context of every external call and of every template/menu lookup (harness resource) or store lookup (library DbResource over a recording store), also after restart, must be the model's current language; pages must show the translated template/label when one exists and the default entry otherwise; invalid codes must change nothing. Sampling.",
    note="Trusted: refvm language rules; a small table of valid ISO-639 codes in the model."),
  "C20": dict(level="exploration", design="§4 C20",
    technique=TECH + "histories continuing past graceful and abnormal session ends with a restart before every request on all backends, refinement against refvm's end/blocked behaviour",
    text="Seeded search over programs with both kinds of end node and TERMINATE-setting external code; after a graceful end the stored session must have an empty symbol cache and the same client flags and the next request must run the entry node afresh; after an abnormal end every later request must report stop, output nothing and run nothing until the harness clears the flag. Sampling.",
-   note="Trusted: refvm; nothing is asserted after the harness cleared TERMINATE or when the final page cannot be rendered."),
+   note="Trusted: refvm; nothing is asserted after the harness cleared TERMINATE. Template-lookup and client-write faults are injected on arbitrary requests including the one that ends the session: the page is then not compared, the restart/blocking behaviour is."),
  "C09": dict(level="exploration", design="§4 C09",
    technique=TECH + "seeded cache operation histories with snapshot/restore (restart) injected between operations, refinement against a reference cache, failure-atomicity check",
    text="Seeded operation histories over the cache API (values across the 16-bit boundary, limits, capacities) checked operation by operation against a small reference cache: limit and capacity enforcement, exact byte accounting, one scope per symbol, release on Pop/Reset, and unchanged exported state after every rejected operation; a sub-batch serialises and restores the cache between operations. The cache is sequential: the family contributes histories, restart as a fault and the model, not schedules. Sampling.",
    note="Trusted: the reference cache (maps with limits). Acceptance of an operation the model accepts is not demanded (counted as probe)."),
  "C10": dict(level="exploration", design="§4 C10",
    technique=TECH + "one operation history in lock-step on memory, filesystem (simulated disk, text and binary keys) and Postgres (fake server) with handle reopen, refinement against a reference map",
-   text="Seeded histories of Put/Get/SetPrefix/SetSession/SetLanguage/SetLock/seal/Dump/reopen applied in lock-step to every backend through two handles with independent sticky context and to a reference map; every Get, every refused locked write, every not-found error and every filesystem listing must agree with the map and hence with each other. Sampling.",
+   text="Seeded histories of Put/Get/SetPrefix/SetSession/SetLanguage/SetLock/seal/Dump/reopen applied in lock-step to every backend through two handles with independent sticky context and to a reference map; every Get, every refused locked write, every not-found error and every filesystem listing must agree with the map and hence with each other. The caller reuses its key/value buffers, overwrites what Get handed out and calls Close on handles it keeps using; the simulated file system enforces NAME_MAX. Sampling.",
    note="Trusted: reference map keyed by (type, session if sessioned, key, language if translated); pgfake stands in for Postgres; well-formed keys and dot-free session ids only (adversarial ones are C11)."),
  "C11": dict(level="exploration", design="§4 C11",
    technique=TECH + "adversarial key/session histories over all backends with reopen, unique tagged values, plus an injectivity sweep over a small adversarial alphabet",
-   text="Every value written is tagged with its (type, session, key); a read or a per-session listing that returns a value tagged with a different triple is a violation, as is any path addressed outside the store directory on the simulated disk. The sweep is exhaustive over the stated alphabet and length; histories are sampled. Three encoding collisions that cannot be repaired without breaking stored data are listed as known findings (reported as KNOWN-FINDING, not suppressing other shapes).",
+   text="Every value written is tagged with its (type, session, key); a read or a per-session listing that returns a value tagged with a different triple is a violation, as is any path addressed outside the store directory on the simulated disk. A third kind of run goes through the engine: 2-3 sessions with related ids served alternately over ONE shared store handle (optionally one shared flushing persister, a cache capacity) must see the outputs and leave the stored records they do when served alone. The sweep is exhaustive over the stated alphabet and length; histories are sampled. Three encoding collisions that cannot be repaired without breaking stored data are listed as known findings (reported as KNOWN-FINDING, not suppressing other shapes).",
    note="Trusted: collision-shape classifier used only to match known findings; triples a backend rejects are skipped on that backend."),
  "C12": dict(level="fault_enumeration", design="§4 C12",
    technique=TECH + "crash (process death) injected at every file-system micro-step and write offset of every save on a simulated disk; old-or-new record oracle plus continuation twins",
@@ -61,23 +61,23 @@ checks = {
    note="Trusted: simfs (in-memory model of open/create/truncate/write/close/rename/remove with process-death semantics, no lost un-synced data); the AST import rewrite of db/fs."),
  "C13": dict(level="fault_enumeration", design="§4 C13",
    technique=TECH + "every single and (thorough: every, quick: sampled) double failing driver call on an in-process transactional fake of pgx, transaction log + acknowledged-write model",
-   text="For sampled operation histories on the real db/postgres every primitive driver call (BeginTx, Exec, Query, Next, Scan, Commit incl. in-doubt, Rollback) is made to fail once, and every pair in the thorough tier; the faulted operation must report an error, no call may reach an ended transaction, every transaction must be ended by commit/rollback, later single operations must succeed, acknowledged writes must not be lost, and all-success explicit transactions must be visible at Stop and invisible after Abort.",
+   text="For sampled operation histories on the real db/postgres every primitive driver call (BeginTx, Exec, Query, Next, Scan, Commit incl. in-doubt, Rollback) is made to fail once - with a synthetic error or by the request context being cancelled in mid-flight - and every pair in the thorough tier; histories include listings (Dump) and the table set-up step of Connect (through the one guarded hook in /repo); the faulted operation must report an error, no call may reach an ended transaction, every transaction must be ended by commit/rollback, later single operations must succeed, acknowledged writes must not be lost, and all-success explicit transactions must be visible at Stop and invisible after Abort.",
    note="Trusted: pgfake (stub of Postgres + pgx objects; read-committed, statement error aborts the transaction); the acknowledged/in-doubt model."),
  "C01": dict(level="exploration", design="§4 C01",
    technique=TECH + "seeded histories with restarts, failing external calls and client garbage; size invariant on every Flush plus unsized differential twin",
    text="Seeded search over generated applications, contents, page indices and input histories with the output size drawn around the unlimited page lengths; invariant len(output) <= OutputSize on every page handed to the client, and comparison with an unsized twin at the same position to rule out silent truncation. Sampling, not proof.",
-   note="Trusted: output parser over sentinel-delimited generated templates; scripted external functions. One known finding (exit value appended without size check) is listed in known_findings.json and reported as KNOWN-FINDING."),
+   note="Trusted: output parser over sentinel-delimited generated templates; scripted external functions. Also compared: the final output of a session with the unsized twin's (a page dropped without error is a violation). Text is generated with multi-byte characters; one run in 12 has values that fill a 65535-byte limit (pages just over 64 KiB). No known finding left (two were repaired in /repo, see known_findings.json 'fixed')."),
  "C08": dict(level="exploration", design="§4 C08",
    technique=TECH + "junk-heavy client histories with restarts and failing external calls over generated and example applications; recover() + consistency invariants + save/load/continue probe",
-   text="Seeded search over well-formed generated applications and the repository's examples (assembled with the real assembler), all modes and backends; the first requests of every example are swept systematically over its selector alphabet plus junk. Any panic of library code and any violated consistency invariant after a request is a violation. Sampling beyond the sweep depth.",
-   note="Trusted: well-formedness validator of the generator (targets exist, _catch defined, flags in range, no self-move, HALT on every move cycle); simfs/pgfake stubs for the fs and Postgres backends."),
+   text="Seeded search over well-formed generated applications and the repository's examples (assembled with the real assembler), all modes and backends; the first requests of every example are swept systematically over its selector alphabet plus junk. Faults: failing external functions, failing pre-VM function (also placed at the depth limit), template-lookup and client-write errors, restarts. Any panic of library code, any violated consistency invariant after a request, a session that cannot be saved, loaded and continued, and a request that does not return (confirmed in fresh processes) is a violation. Sampling beyond the sweep depth.",
+   note="Trusted: well-formedness validator of the generator (targets exist, _catch defined, flags in range, no static self-move, HALT on every move cycle; depth is NOT bounded: one run in 50 climbs to and beyond the 128-entry limit); simfs/pgfake stubs for the fs and Postgres backends."),
  "C17": dict(level="exploration", design="§4 C17",
    technique=TECH + "client-garbage injection into histories, with/without differential twins, snapshot comparison before/after refused requests",
    text="Seeded search over histories with refusal candidates and Flush-without-Exec probes inserted at drawn positions, long-lived and persisted operation on every backend; a refused request must produce no output, run no code, leave the live and the stored session unchanged, and the twin without the refused requests must see identical results. Sampling, not proof.",
    note="Trusted: harness gateway; candidates the engine accepts are not refusals and end the comparison (counted)."),
  "C07": dict(level="exploration", design="§4 C07",
    technique=TECH + "seeded restart injection at request boundaries, differential twins (long-lived / persisted / mixed), tape shrinking",
-   text="Seeded search over generated applications, configurations and input histories; every history is served by three twins of the real engine (one long-lived engine, a fresh engine+persister+store handle per request, fresh at a drawn subset) and all client-visible results must agree request by request. Sampling, not proof; no model of the VM is involved, so the check cannot mis-model the code.",
+   text="Seeded search over generated applications, configurations and input histories; every history is served by three twins of the real engine (one long-lived engine, a fresh engine+persister+store handle per request, fresh at a drawn subset; the same template-lookup and client-write faults hit the same request of each) and, in a third of the runs, by a fourth twin through the library's engine.Loop over a simulated connection (lines in chunks, close or failure at drawn lines); all client-visible results must agree request by request. Three short scripted applications are mixed into the batch for combinations random histories reach too late. Sampling, not proof; no model of the VM is involved, so the check cannot mis-model the code. One known finding (results that are not valid UTF-8 cannot be resumed).",
    note="Trusted: the harness gateway (Exec/Flush/Finish order as in examples/http), scripted external functions that are deterministic in (symbol, call index, input), the independent bytecode encoder. Comparison stops at the first stop/error of a session."),
 }
 
